@@ -107,6 +107,8 @@ def compare(impl_payload, model_payload, line=""):
         return ["<no output>"], [("crash", "the implementation produced no output for this line (process died?)")]
     if model_payload is None:
         return ["<no model output>"], []
+    if model_payload == "pyonly":
+        return [], []     # a query that only exists for the Python comparison (C19)
     I, M = fields(impl_payload), fields(model_payload)
     # ---- Tier A
     for k, mv in M.items():
@@ -197,6 +199,10 @@ def compare(impl_payload, model_payload, line=""):
         b.append(("parse", "printing and parsing gives %s, expected the original tree %s" % (I.get("parse"), M["s.parse"])))
     if any(I.get(k) == "panic" for k in ("tok", "parse", "pt")):
         b.append(("panic", "the parser panicked"))
+    if "s.w" in M and "s.ess" not in M and I.get("w") != M["s.w"]:
+        b.append(("w", "weight %s, the function has %s satisfying points" % (I.get("w"), M["s.w"])))
+    if "s.fresh" in M and I.get("fresh") != M["s.fresh"]:
+        b.append(("fresh", "a freshly built object of the same function over the same inputs is told apart: flags %s (structure/node count, equivalent x2, implied x2)" % I.get("fresh")))
     if I.get("det") == "0":
         b.append(("det", "the same call made twice in one process gave two different results"))
     if "s.val" in M and I.get("val") != M["s.val"]:
@@ -207,3 +213,40 @@ def compare(impl_payload, model_payload, line=""):
     if "s.ans" in M and I.get("ans") != M["s.ans"]:
         b.append(("ans", "answers %s, specified %s" % (I.get("ans"), M["s.ans"])))
     return a, b
+
+
+# ---- C19: what the Python call returned vs what the Rust API returned for the same line
+CSV_EXC = {"UnexpectedEof": "EOFError", "NonBooleanCellValue": "TypeError", "IOError": "OSError"}
+
+
+def compare_python(py_payload, impl_payload, line):
+    """list of reasons why the Python observation disagrees with the Rust one (empty = agree)"""
+    if impl_payload is None:
+        return ["no Rust observation for this line"]
+    P, I = fields(py_payload), fields(impl_payload)
+    why = []
+    ps, is_ = P.get("status"), I.get("status")
+    if ps in ("ok", "na", "exc") or is_ in ("ok", "na", "err", "panic"):
+        # a register line: success / failure must correspond, with the documented exception kind
+        if is_ == "ok" and ps != "ok": why.append("Rust succeeds, Python %s %s" % (ps, P.get("exc", "")))
+        elif is_ == "na" and ps not in ("na",): pass   # not expressible on one side: ignored
+        elif is_ == "err":
+            want = CSV_EXC.get(I.get("variant", ""), "RuntimeError")
+            if ps != "exc" or (P.get("exc") != want and not (want == "OSError" and P.get("exc") in ("OSError", "IOError", "FileNotFoundError"))):
+                why.append("Rust returns an error (%s), Python %s %s, documented kind %s" % (I.get("variant", "parse/conversion"), ps, P.get("exc", ""), want))
+        elif is_ == "panic":
+            if ps != "exc": why.append("Rust panics (documented refusal), Python %s" % ps)
+        return why
+    if ps == "skip" or is_ == "skip":
+        return why
+    if ps == "exc":
+        return ["Python raised %s where the Rust API returns a value" % P.get("exc")]
+    for k, v in P.items():
+        if k == "exc":
+            want = {"checked": "KeyError", "acc": "RuntimeError"}.get(next((x for x in ("checked", "acc") if x in P), ""), None)
+            if line.split()[1] == "pyctor": want = "TypeError"
+            if want and v != want: why.append("exception %s, documented kind %s" % (v, want))
+            continue
+        if k not in I: continue
+        if I[k] != v: why.append("%s: Python %s, Rust %s" % (k, v[:80], I[k][:80]))
+    return why
